@@ -498,7 +498,7 @@ def _source_formulas(eng, R):
             check(eng, R, "Htot", cname, pn, "return", spec, known=["self.get_total_error", "()self.get_total_error", ".error", ".cov_mat", ".cor_mat", ".cov_mat_inverse", ".cov_mat_rel", ".error_rel"], what="%s must be read from the total of %s" % (pn, "the container" if axis is None else "axis %d" % axis))
     for cname, accs in (("IndexedContainer", {None: ("_tmp_cov_mat", "_data")}), ("XYContainer", {0: ("_tmp_cov_mat_x", "_x"), 1: ("_tmp_cov_mat_y", "_y")})):
         f = get_func(p, cname, "_calculate_total_error")
-        src = " ".join(ast.unparse(f.node).split())
+        src = common.src_of(f.node)
         for axis, (acc, ref) in sorted(accs.items(), key=lambda kv: str(kv[0])):
             inits = [n for n in ast.walk(f.node) if isinstance(n, ast.Assign) and any(isinstance(t, ast.Name) and t.id == acc for t in n.targets)]
             ok = len(inits) == 1 and " ".join(ast.unparse(inits[0].value).split()) == "np.zeros((_sz, _sz))"
@@ -516,6 +516,6 @@ def _source_formulas(eng, R):
             R.ob("Htot", "XYContainer._calculate_total_error:order", "self._total_error = [_total_err_x, _total_err_y]" in src and "_total_err_x = MatrixGaussianError(_tmp_cov_mat_x" in src
                  and "_total_err_y = MatrixGaussianError(_tmp_cov_mat_y" in src and "_x, _y = (self.x, self.y)" in src, (f.file, f.lineno), "totals must be stored as [x, y] (get_total_error indexes by axis)")
         f = get_func(p, cname, "get_total_error")
-        src = " ".join(ast.unparse(f.node).split())
+        src = common.src_of(f.node)
         want = "return self._total_error" if cname == "IndexedContainer" else "return self._total_error[_axis]"
         R.ob("Htot", "%s.get_total_error" % cname, want in src and "if self._total_error is None: self._calculate_total_error()" in src, (f.file, f.lineno), "get_total_error must compute the total when the cache is empty and return it")
